@@ -38,7 +38,7 @@ ben("f20-poll-every-iteration", ["C01"],
      "                    self.collect_global(id);\n                    if ticks >= IO_POLL_INTERVAL {"))
 # ---- F21: revert (the local queue is not served after the io timer list)
 mut("f21-revert-run-after-timers", ["C18", "C08"], "select/local-queue-served-after-timers",
-    ("src/io/sys/unix/epoll.rs", "        #[cfg(feature = \"io_timeout\")]\n        scheduler.run_queued_tasks(id);\n\n        Ok(next_expire)", "        Ok(next_expire)"))
+    ("src/io/sys/unix/epoll.rs", "        #[cfg(feature = \"io_timeout\")]\n        scheduler.run_queued_tasks(id);\n\n        // `next_expire` is relative", "        // `next_expire` is relative"))
 
 # ---- F22: revert (store buffering in the SyncBlocker handshake)
 mut("f22-revert-set-release-release", ["C10", "C05"], "release-store",
@@ -111,8 +111,8 @@ mut("f31-init-under-borrow", ["C15"], "local/init-runs-unborrowed",
     ("src/local.rs", "                    let mut value: Option<Box<dyn Opaque>> = Some(Box::new((self.__init)()));\n                    let mut data = data.borrow_mut();\n",
      "                    let mut data = data.borrow_mut();\n                    let mut value: Option<Box<dyn Opaque>> = Some(Box::new((self.__init)()));\n"))
 mut("f31-init-in-insert-closure", ["C15"], "local/init-runs-unborrowed",
-    ("src/local.rs", "                    let mut value: Option<Box<dyn Opaque>> = Some(Box::new((self.__init)()));\n                    let mut data = data.borrow_mut();\n", "                    let mut data = data.borrow_mut();\n"),
-    ("src/local.rs", "or_insert_with(|| value.take().unwrap());", "or_insert_with(|| Box::new((self.__init)()));"))
+    ("src/local.rs", "                    let mut value: Option<Box<dyn Opaque>> = Some(Box::new((self.__init)()));\n                    let mut data = data.borrow_mut();\n                    // if the initialiser has initialised this key recursively keep that\n                    // value, the spare one is dropped after the borrow is released\n                    let entry = data.entry(key).or_insert_with(|| value.take().unwrap());",
+     "                    let mut data = data.borrow_mut();\n                    let entry = data.entry(key).or_insert_with(|| Box::new((self.__init)()));"))
 
 # ---- F32: revert (a worker never returns to its selector while its local queue stays non-empty)
 mut("f32-revert-run-budget", ["C01", "C17"], "worker/run-budget",
@@ -124,6 +124,15 @@ mut("f32-budget-exit-without-wakeup", ["C01"], "worker/",
 # ---- F33: revert (Cqueue is auto-Sync)
 mut("f33-revert-cqueue-not-sync", ["C16"], "Cqueue is not Sync",
     ("src/cqueue.rs", "    _not_sync: PhantomData<Cell<()>>,", "    _not_sync: PhantomData<()>,"))
+
+# ---- F35: revert (thread io parks once)
+mut("f35-revert-thread-io-single-park", ["C17", "C02"], "thread-park/in-a-loop-on-a-condition",
+    ("src/yield_now.rs", "        crate::io::thread::wait_proxy_co();", "        std::thread::park();"))
+mut("f35-wait-proxy-if-instead-of-while", ["C17"], "thread-park/in-a-loop-on-a-condition",
+    ("src/io/thread.rs", "        while !done.swap(false, Ordering::Acquire) {", "        if !done.swap(false, Ordering::Acquire) {"))
+mut("f35-spsc-outer-loop-removed", ["C17"], "thread-park/in-a-loop-on-a-condition",
+    ("src/sync/spsc.rs", "        loop {\n            match self.inner.recv() {\n                Err(TryRecvError::Empty) => {}\n                data => return data.map_err(|_| RecvError),\n            }\n        }",
+     "        match self.inner.recv() {\n            Err(TryRecvError::Empty) => self.inner.recv().map_err(|_| RecvError),\n            data => data.map_err(|_| RecvError),\n        }"))
 
 # ---- F18: revert (nested run while the wait_kernel guard is held)
 mut("f18-revert-nested-run-under-guard", ["C01", "C02"], "no-nested-run-under-guard",
@@ -203,9 +212,9 @@ mut("revert-f13-mpmc-try-recv-recheck", ["C07"], "mpmc/try_recv/drain-before-dis
 mut("revert-f6-scoped-join-guard", ["C14"], "scope/join-cancel-masked",
     ("src/scoped.rs", "                let _g = CancelDisableGuard::new();\n                handle.join()", "                handle.join()"))
 mut("revert-f6-cqueue-drop-guard", ["C14"], "cqueue/drain-cancel-masked",
-    ("src/cqueue.rs", "        let _g = CancelDisableGuard::new();\n", ""))
+    ("src/cqueue.rs", "        let _g = CancelDisableGuard::new();\n\n        // run the rest event", "        // run the rest event"))
 mut("revert-f10-eventsender-yield-back", ["C15"], "consume-after:EventSender",
-    ("src/cqueue.rs", "        // and it would be seen by the next coroutine that reuses this stack\n        get_co_para();", "        // and it would be seen by the next coroutine that reuses this stack"))
+    ("src/cqueue.rs", "        if get_co_para().is_some() && !std::thread::panicking() {\n            trigger_cancel_panic();\n        }", "        let _ = trigger_cancel_panic;"))
 mut("revert-f10-rawioblock-yield-back", ["C15"], "consume-after:RawIoBlock",
     ("src/io/sys/unix/wait_io.rs", "        // or it would be seen by the next park/io call on this stack\n        get_co_para();", "        // or it would be seen by the next park/io call on this stack"))
 mut("revert-f12-spsc-wait-kernel", ["C09"], "wait-kernel-starts-false",
@@ -215,8 +224,8 @@ mut("revert-f14-mutex-repark", ["C05", "C09"], "H8-no-repark",
 mut("revert-f15a-finished-drain", ["C14", "C16"], "cqueue/drain-before-finished",
     ("src/cqueue.rs", "                        match self.ev_queue.pop() {\n                            Some(mut ev) => run_ev!(ev),\n                            None => return Err(PollError::Finished),\n                        }", "                        return Err(PollError::Finished);"))
 mut("revert-f15b-check-panic-lock", ["C13"], "cqueue/lock-released-before-join",
-    ("src/cqueue.rs", "        let handle = self.selectors.lock().unwrap()[id]\n            .take()\n            .expect(\"join handler not set\");\n        // always join, also after a panic was already reported: the Done event is sent by\n        // the select coroutine itself while it's still running with a ref to this cqueue,\n        // only the join tells that it's really finished\n        match handle.join() {",
-     "        match self.selectors.lock().unwrap()[id]\n            .take()\n            .expect(\"join handler not set\")\n            .join()\n        {"))
+    ("src/cqueue.rs", "        let handle = self.selectors.lock().unwrap()[id]\n            .take()\n            .expect(\"join handler not set\");", "        let mut sel = self.selectors.lock().unwrap();\n        let handle = sel[id].take().expect(\"join handler not set\");"),
+    ("src/cqueue.rs", "        match res {\n            Ok(_) => {}", "        let _keep = &mut sel;\n        match res {\n            Ok(_) => {}"))
 mut("revert-f17-add-timer-wrap", ["C08"], "interval-no-wrap",
     ("src/timeout_list.rs", "        let interval = u64::try_from(dur.as_nanos()).unwrap_or(u64::MAX);", "        let interval = dur.as_nanos() as u64;"))
 mut("revert-f17-add-timer-overflow", ["C08"], "expiry-saturates",
